@@ -10,8 +10,13 @@
 //   NF <k> en=… / NE <k> rets=… en=…                    entry / end of the deferred task (runNext) running callable k
 // Callables (`fn <script>`) carry the same scripts as descriptor callbacks; script items `t<k>` arm the 1 ms one-shot
 // timer of callable k (due in the next turn: every `pass` advances the virtual clock by 1 ms), `n<k>` posts it with runNext.
-// Slots 0-5 are socket pairs on descriptors 200,202,…; slots 1023 and 1024 are socket pairs on exactly those numbers
-// (FD_SETSIZE - 1 and FD_SETSIZE).  `eintr` makes the next wait return -1/EINTR without asking the kernel.
+// Slots 0-5 are socket pairs on descriptors 200,202,…; slot 6 is the read end of a pipe, slot 7 the write end of a pipe,
+// slot 8 a non-blocking TCP socket whose connect() to a bound, not listening loopback port was refused (kindOf in the model);
+// slots 1023 and 1024 are socket pairs on exactly those numbers (FD_SETSIZE - 1 and FD_SETSIZE).
+// Run-time kernel conditions: `h<f>` closes the peer end (socket pair: hang-up, + error if our send buffer was full; pipe read end:
+// hang-up; pipe write end: error), `s<f>` = the peer shuts down its write side.  `E<e>` = enable() while the interposed epoll_ctl
+// refuses the EPOLL_CTL_ADD it issues (ENOMEM / ENOSPC / EPERM in turn).
+// `eintr` makes the next wait return -1/EINTR without asking the kernel.
 // Masks are tbox bits (1 read, 2 write, 4 except).  Format matches lean/Driver/C03.lean.
 #include "vh.h"
 #include "vtime.h"
@@ -21,6 +26,9 @@
 #include <sys/epoll.h>
 #include <sys/select.h>
 #include <sys/socket.h>
+#include <netinet/in.h>
+#include <arpa/inet.h>
+#include <poll.h>
 #include <sys/resource.h>
 #include <unistd.h>
 #include <signal.h>
@@ -35,16 +43,19 @@
 
 using namespace tbox::event;
 
-static const int kSlots = 8;
-static const int kSlotNo[kSlots] = {0, 1, 2, 3, 4, 5, 1023, 1024};      // slot numbers as the op files write them
-static inline int idx(int f) { return f < 6 ? f : 6 + (f - 1023); }      // index into per-slot tables
-static inline int W(int f) { return f < 6 ? 200 + 2 * f : f; }           // watched end of slot f
-static inline int Pe(int f) { return f < 6 ? 201 + 2 * f : 990 + (f - 1023); }  // peer end (held by the harness)
+static const int kSlots = 11;
+static const int kSlotNo[kSlots] = {0, 1, 2, 3, 4, 5, 6, 7, 8, 1023, 1024};      // slot numbers as the op files write them
+static inline int idx(int f) { return f < 9 ? f : 9 + (f - 1023); }      // index into per-slot tables
+static inline int W(int f) { return f < 9 ? 200 + 2 * f : f; }           // watched end of slot f
+static inline int Pe(int f) { return f < 9 ? 201 + 2 * f : 990 + (f - 1023); }  // peer end (held by the harness)
+static inline int kind_of(int f) { return f == 6 ? 1 : f == 7 ? 2 : f == 8 ? 3 : 0; }   // 0 socket pair, 1 pipe read end, 2 pipe write end, 3 refused connect
 static int slot_of(int fd) {
     if (fd == 1023 || fd == 1024) return fd;
-    return (fd >= 200 && fd < 212 && (fd % 2) == 0) ? (fd - 200) / 2 : -1;
+    return (fd >= 200 && fd < 218 && (fd % 2) == 0) ? (fd - 200) / 2 : -1;
 }
 static bool g_eintr = false;              // op `eintr`: the next wait is interrupted
+static bool g_fail_add = false;           // script item `E<e>`: the EPOLL_CTL_ADD issued by this enable() is refused
+static int g_fail_no = 0;
 
 // ---------------------------------------------------------------- interposition
 static bool want_k = false;
@@ -62,6 +73,11 @@ static int tbox_bits(uint32_t ev) {
 extern "C" int epoll_ctl(int epfd, int op, int fd, struct epoll_event *ev) {
     typedef int (*fn_t)(int, int, int, struct epoll_event *);
     static fn_t real = (fn_t)dlsym(RTLD_NEXT, "epoll_ctl");
+    if (g_fail_add && op == EPOLL_CTL_ADD && slot_of(fd) >= 0) {
+        static const int errs[3] = {ENOMEM, ENOSPC, EPERM};
+        errno = errs[g_fail_no++ % 3];
+        return -1;
+    }
     int r = real(epfd, op, fd, ev);
     if (r == 0) {
         if (op == EPOLL_CTL_DEL) g_reg.erase(fd);
@@ -138,21 +154,84 @@ extern "C" int select(int nfds, fd_set *r, fd_set *w, fd_set *e, struct timeval 
 
 // ---------------------------------------------------------------- descriptors
 static bool slot_open[kSlots];
-static void reopen_slot(int f) {
+static bool slot_eof[kSlots];             // POLLIN is permanent (receive side shut down): neither feed nor drain
+static bool slot_gone[kSlots];            // the peer end no longer exists
+static int g_dead_port_sock = -1;         // bound, never listening: connect() to its port is refused
+static struct sockaddr_in g_dead_addr;
+
+// a socket with POLLIN|POLLOUT|POLLERR|POLLHUP: a non-blocking connect() that was refused; where the sandbox has no loopback,
+// a socket pair whose peer was closed while our send buffer was full shows exactly the same poll bits
+static int refused_socket() {
+    if (g_dead_port_sock < 0) {
+        g_dead_port_sock = socket(AF_INET, SOCK_STREAM, 0);
+        memset(&g_dead_addr, 0, sizeof(g_dead_addr));
+        g_dead_addr.sin_family = AF_INET; g_dead_addr.sin_addr.s_addr = htonl(INADDR_LOOPBACK); g_dead_addr.sin_port = 0;
+        socklen_t l = sizeof(g_dead_addr);
+        if (g_dead_port_sock < 0 || bind(g_dead_port_sock, (struct sockaddr *)&g_dead_addr, sizeof(g_dead_addr)) != 0 ||
+            getsockname(g_dead_port_sock, (struct sockaddr *)&g_dead_addr, &l) != 0) { if (g_dead_port_sock >= 0) close(g_dead_port_sock); g_dead_port_sock = -2; }
+    }
+    if (g_dead_port_sock >= 0) {
+        int s = socket(AF_INET, SOCK_STREAM | SOCK_NONBLOCK, 0);
+        if (s >= 0) {
+            int r = connect(s, (struct sockaddr *)&g_dead_addr, sizeof(g_dead_addr));
+            if (r != 0 && errno == EINPROGRESS) {
+                for (int k = 0; k < 200; ++k) {               // the RST arrives at once on loopback; wait for the kernel, not for a clock
+                    struct pollfd p = {s, POLLOUT, 0};
+                    if (poll(&p, 1, 100) > 0 && (p.revents & POLLHUP) && (p.revents & POLLERR)) return s;
+                }
+            }
+            close(s);
+        }
+    }
     int sv[2];
     if (socketpair(AF_UNIX, SOCK_STREAM | SOCK_NONBLOCK, 0, sv) != 0) { perror("socketpair"); _exit(3); }
-    int sz = 4096;
-    setsockopt(sv[0], SOL_SOCKET, SO_SNDBUF, &sz, sizeof(sz));
+    int sz = 4096; setsockopt(sv[0], SOL_SOCKET, SO_SNDBUF, &sz, sizeof(sz));
+    char buf[1024]; memset(buf, 'x', sizeof(buf)); while (write(sv[0], buf, sizeof(buf)) > 0) {}
+    close(sv[1]);
+    return sv[0];
+}
+
+static void reopen_slot(int f) {
+    int sv[2];
+    int k = kind_of(f);
+    if (k == 0) {
+        if (socketpair(AF_UNIX, SOCK_STREAM | SOCK_NONBLOCK, 0, sv) != 0) { perror("socketpair"); _exit(3); }
+        int sz = 4096;
+        setsockopt(sv[0], SOL_SOCKET, SO_SNDBUF, &sz, sizeof(sz));
+    } else if (k == 3) {
+        sv[0] = refused_socket(); sv[1] = -1;
+    } else {
+        int p[2];
+        if (pipe2(p, O_NONBLOCK) != 0) { perror("pipe2"); _exit(3); }
+        fcntl(p[1], F_SETPIPE_SZ, 4096);
+        sv[0] = p[k == 1 ? 0 : 1]; sv[1] = p[k == 1 ? 1 : 0];
+    }
     // dup2 closes the old open file under the same number: the kernel drops it from the epoll set
-    dup2(sv[0], W(f)); dup2(sv[1], Pe(f));
-    close(sv[0]); close(sv[1]);
+    dup2(sv[0], W(f)); close(sv[0]);
+    if (sv[1] >= 0) { dup2(sv[1], Pe(f)); close(sv[1]); } else close(Pe(f));
     g_reg.erase(W(f));
     slot_open[idx(f)] = true;
+    slot_eof[idx(f)] = slot_gone[idx(f)] = (k == 3);
 }
 // close the watched end and leave its number unused (the peer end stays with the harness)
 static bool kill_slot(int f) {
     if (!slot_open[idx(f)]) return false;
     close(W(f)); g_reg.erase(W(f)); slot_open[idx(f)] = false;
+    return true;
+}
+// run-time kernel conditions: c = 0 the peer end is closed, c = 1 the peer shuts down its write side (socket pairs only)
+static bool cond_slot(int f, int c) {
+    int i = idx(f);
+    if (!slot_open[i] || slot_gone[i]) return false;
+    if (c == 0) {
+        close(Pe(f));
+        slot_gone[i] = true;
+        if (kind_of(f) == 0) slot_eof[i] = true;
+        return true;
+    }
+    if (kind_of(f) != 0 || slot_eof[i]) return false;
+    shutdown(Pe(f), SHUT_WR);
+    slot_eof[i] = true;
     return true;
 }
 // several rounds: a read stops at (and then discards) a pending out-of-band mark
@@ -180,11 +259,14 @@ static int apply(const Act &a) {
     switch (a.kind) {
         case 'c': reopen_slot(a.f); return 1;             // also while event objects still refer to the number
         case 'k': return kill_slot(a.f) ? 1 : 0;
-        case 'r': if (slot_open[idx(a.f)]) { char c = 'r'; (void)!write(Pe(a.f), &c, 1); } return 1;
-        case 'o': if (slot_open[idx(a.f)]) { char c = '!'; (void)!send(Pe(a.f), &c, 1, MSG_OOB); } return 1;
-        case 'u': if (slot_open[idx(a.f)]) drain(W(a.f)); return 1;
-        case 'b': if (slot_open[idx(a.f)]) fill(W(a.f)); return 1;
-        case 'w': if (slot_open[idx(a.f)]) drain(Pe(a.f)); return 1;
+        // the model's `blocked`: nothing happens where the harness has no means left (peer gone, receive side shut down, kind)
+        case 'r': { int i = idx(a.f); if (slot_open[i] && !slot_eof[i] && !slot_gone[i] && kind_of(a.f) != 2) { char c = 'r'; (void)!write(Pe(a.f), &c, 1); } return 1; }
+        case 'o': { int i = idx(a.f); if (slot_open[i] && !slot_eof[i] && !slot_gone[i] && kind_of(a.f) == 0) { char c = '!'; (void)!send(Pe(a.f), &c, 1, MSG_OOB); } return 1; }
+        case 'u': { int i = idx(a.f); if (slot_open[i] && !slot_eof[i] && kind_of(a.f) != 2) drain(W(a.f)); return 1; }
+        case 'b': { int i = idx(a.f); if (slot_open[i] && !slot_gone[i] && kind_of(a.f) != 1) fill(W(a.f)); return 1; }
+        case 'w': { int i = idx(a.f); if (slot_open[i] && !slot_gone[i] && kind_of(a.f) != 1) drain(Pe(a.f)); return 1; }
+        case 'h': return cond_slot(a.f, 0) ? 1 : 0;
+        case 's': return cond_slot(a.f, 1) ? 1 : 0;
         case 't': if (a.a < 0 || (size_t)a.a >= fns.size()) return 0; return fns[a.a].timer->enable() ? 1 : 0;
         case 'n': {
             if (a.a < 0 || (size_t)a.a >= fns.size()) return 0;
@@ -202,6 +284,7 @@ static int apply(const Act &a) {
             return r;
         }
         case 'e': return o.p->enable();
+        case 'E': { g_fail_add = true; bool r = o.p->enable(); g_fail_add = false; return r; }
         case 'd': return o.p->disable();
         case 'x': { FdEvent *p = o.p; o.p = nullptr; delete p; return 1; }
     }
@@ -241,8 +324,8 @@ static bool parse_act(const std::string &w, Act &a) {
             a.oneshot = p[3] == "o";
             return true;
         }
-        case 'e': case 'd': case 'x': return num(rest, a.a, 1000);
-        case 'c': case 'k': case 'r': case 'o': case 'u': case 'b': case 'w': return slotnum(rest, a.f);
+        case 'e': case 'd': case 'x': case 'E': return num(rest, a.a, 1000);
+        case 'c': case 'k': case 'r': case 'o': case 'u': case 'b': case 'w': case 'h': case 's': return slotnum(rest, a.f);
         case 't': case 'n': return num(rest, a.a, 16);
     }
     return false;
@@ -262,7 +345,7 @@ static bool parse_script(const std::string &w, std::vector<Act> &out, int self) 
 }
 
 static void reset_all() {
-    g_quiet = true; g_eintr = false;
+    g_quiet = true; g_eintr = false; g_fail_add = false;
     delete g_timer; g_timer = nullptr;
     for (auto &f : fns) { delete f.timer; f.timer = nullptr; }
     fns.clear();
